@@ -97,6 +97,18 @@ pub fn histories(tier: Tier) -> Vec<Hist> {
             deleted_nodes: vec![0], deleted_refs: vec![], c11: true,
         },
         Hist {
+            name: "updated-then-deleted-by-author-peers-hold-older-version",
+            peers: 3,
+            steps: vec![Step::Clock(1), cp(0, 0, "a"), Step::PullAll, Step::Clock(5), up(0, 0, "b"), Step::Clock(6), Step::Delete { peer: 0, slot: 0 }],
+            deleted_nodes: vec![0], deleted_refs: vec![], c11: true,
+        },
+        Hist {
+            name: "updated-elsewhere-then-deleted-by-a-peer-that-pulled-the-update",
+            peers: 3,
+            steps: vec![Step::Clock(1), cp(0, 0, "a"), Step::PullAll, Step::Clock(5), up(1, 0, "b"), Step::Pull { dst: 0, src: 1 }, Step::Clock(9), Step::Delete { peer: 0, slot: 0 }],
+            deleted_nodes: vec![0], deleted_refs: vec![], c11: true,
+        },
+        Hist {
             name: "update-and-delete-race",
             peers: 3,
             steps: vec![Step::Clock(1), cp(0, 0, "a"), Step::PullAll, Step::Clock(5), up(1, 0, "z"), Step::Clock(6), Step::Delete { peer: 0, slot: 0 }],
